@@ -1,7 +1,8 @@
 #!/usr/bin/env python3
 """Re-runs every claimed check against every stored seeded break (scratch
 copies, /repo untouched) and records in seeded/<name>/meta.json which checks
-report a violation.  Usage: tools/seed_recheck.py [name ...]"""
+report a violation.  Usage: tools/seed_recheck.py [name ...]
+SEED_RECHECK_FAST=1 runs only the seed's own property and the checks that reported it before."""
 import sys, os, json, subprocess, shutil, tempfile, glob
 sys.path.insert(0, '/verif/engine')
 import selftest
@@ -27,6 +28,10 @@ def one(name):
             res = {}
             own = meta.get('property', name[:3])
             order = [own] + [i for i in ids if i != own]
+            if os.environ.get('SEED_RECHECK_FAST'):
+                # own property plus the checks that reported the seed before
+                prev = set(meta.get('caught_by') or []) | set((meta.get('confirmed', {}).get('checks') or {}).keys() if False else [])
+                order = [own] + sorted(i for i in prev if i != own and i in ids)
             for i in order:
                 rr = subprocess.run([sys.executable, '/verif/check', i, '--repo', rp, '--no-mutants'], stdout=subprocess.PIPE, stderr=subprocess.STDOUT, text=True, env=env, cwd='/verif')
                 lines = [l for l in rr.stdout.splitlines() if ('%s-R' % i) in l and 'VIOLATION' not in l][:3]
@@ -40,6 +45,6 @@ def one(name):
         shutil.rmtree(tmp, ignore_errors=True)
 
 
-with ThreadPoolExecutor(max_workers=3) as ex:
+with ThreadPoolExecutor(max_workers=int(os.environ.get('SEED_RECHECK_JOBS', '3'))) as ex:
     for name, cb, ab in ex.map(one, names):
         print(name, 'caught_by', cb, 'broken', ab, flush=True)
